@@ -131,9 +131,13 @@ Definition model_layout (v : list Z) : list Z :=
 Definition model_offset_of (v : list Z) : list Z :=
   let rejected := negb (nthz 1 v =? 0) && (nthz 1 v <? nthz 2 v) in
   if rejected then [0; nthz 1 v; nthz 2 v; -1; -1; nthz 5 v] else [1; nthz 1 v; nthz 2 v; nthz 5 v; nthz 5 v; nthz 5 v].
+(* evaluates to the true offset (both forms; the three-argument form also on a named instance used again
+   and through a reference) unless the field is an under-aligned field of a packed struct, which must be
+   refused - and nothing else may be refused *)
 Definition mon_offset_of (v : list Z) : bool :=
-  if nthz 0 v =? 1 then (nthz 3 v =? nthz 5 v) && (nthz 4 v =? nthz 5 v) && negb (negb (nthz 1 v =? 0) && (nthz 1 v <? nthz 2 v))
-  else true.
+  let must_refuse := negb (nthz 1 v =? 0) && (nthz 1 v <? nthz 2 v) in
+  if nthz 0 v =? 1 then (nthz 3 v =? nthz 5 v) && (nthz 4 v =? nthz 5 v) && negb must_refuse
+  else must_refuse.
 (* 504: a field reached only through Deref: must not compile *)
 Definition model_offset_deref (v : list Z) : list Z := [0].
 Definition mon_offset_deref (v : list Z) : bool := nthz 0 v =? 0.
@@ -232,7 +236,7 @@ Fixpoint parse_cty (fuel : nat) (v : list Z) : option (cty * bool * list Z) :=
       | 0 :: sz :: al :: kd :: r => Some (CLeaf (Z.to_N sz) (Z.to_N al) (leafk_of kd), false, r)
       | 1 :: pk :: al :: n :: r =>
           match many (Z.to_nat n) r with Some (fs, r') => Some (CStruct (Z.to_N pk) (Z.to_N al) fs, false, r') | None => None end
-      | 2 :: rk :: ts :: sg :: nv :: r =>
+      | 2 :: rk :: ts :: sg :: ea :: nv :: r =>
           let fix vars (n : nat) (v : list Z) : option (list (Z * list cty) * list Z) :=
             match n with
             | O => Some ([], v)
@@ -244,7 +248,7 @@ Fixpoint parse_cty (fuel : nat) (v : list Z) : option (cty * bool * list Z) :=
                      | _ => None
                      end
             end in
-          match vars (Z.to_nat nv) r with Some (vs, r') => Some (CEnum (Z.to_N rk) (Z.to_N ts) vs, sg =? 1, r') | None => None end
+          match vars (Z.to_nat nv) r with Some (vs, r') => Some (CEnum (Z.to_N rk) (Z.to_N ts) (Z.to_N ea) (sg =? 1) vs, sg =? 1, r') | None => None end
       | _ => None
       end
   end.
@@ -305,7 +309,8 @@ Definition xmonitors2 (a : acase) (v : list Z) : list (N * bool) :=
   | 502%N => []
   | 503%N => [(19%N, mon_offset_of v)]
   | 504%N => [(19%N, mon_offset_deref v)]
-  | 511%N => [(6%N, mon_enum v)]
+  (* a derive(Contiguous) verdict is also C17's business: only gap-free enums may get the trait *)
+  | 511%N => [(6%N, mon_enum v); (17%N, if nthz 1 v =? 0 then mon_enum v else true)]
   | 512%N => [(8%N, mon_checked v)]
   | 521%N => [(18%N, mon_byte_pair v)]
   | 522%N => [(18%N, mon_byte_slice v)]
